@@ -542,10 +542,27 @@ def r21(src, counts):
     return ''.join(out)
 
 
+def r22(src, counts):
+    """`for (I, X) in E.bytes().enumerate() {` -> the desugared loop over the verified stand-in `BytesShim` (std's
+    `Bytes` has no specification and Verus no `for` over it):
+        let mut bytes_iter = crate::adapt::BytesShim::new(E); let mut enumerate_count: usize = 0;
+        loop { let X = match bytes_iter.next() { Some(item) => item, None => break };
+               let I = enumerate_count; enumerate_count += 1; ...
+    (`Enumerate::next` increments its counter before yielding, overflow-checked in debug builds: kept.)"""
+    def rep(mo):
+        counts['R22.bytes_enumerate_loop'] += 1
+        ind = mo.group(1)
+        return ('%slet mut bytes_iter = crate::adapt::BytesShim::new(%s);\n%slet mut enumerate_count: usize = 0;\n'
+                '%sloop {\n%s    let %s = match bytes_iter.next() { Some(item) => item, None => break };\n'
+                '%s    let %s = enumerate_count;\n%s    enumerate_count += 1;'
+                % (ind, mo.group(4), ind, ind, ind, mo.group(3), ind, mo.group(2), ind))
+    return re.sub(r'(?m)^([ \t]*)for \((\w+), (\w+)\) in (\w+)\.bytes\(\)\.enumerate\(\) \{', rep, src)
+
+
 def extract_file(path, modpath):
     """Return (rewritten_source, counts)."""
     counts = Counter()
     src = open(path).read()
-    for rule in (r1, r2, r3, r4, r5, r6, r7, r8, r9, r10, r11, r12, r13, r16, r17, r18, r19, r20, r21, r15):
+    for rule in (r1, r2, r3, r4, r5, r6, r7, r8, r9, r10, r11, r12, r13, r16, r17, r18, r19, r20, r21, r22, r15):
         src = rule(src, counts)
     return src, counts
